@@ -202,6 +202,9 @@ bool StepScript(InterpreterEnv& env)
     }
 
     if (env.successor_script.size()) {
+        // every script of a spend is subject to the script size limit, not just the first
+        if ((env.sigversion == SigVersion::BASE || env.sigversion == SigVersion::WITNESS_V0) && env.successor_script.size() > MAX_SCRIPT_SIZE)
+            return set_error(serror, SCRIPT_ERR_SCRIPT_SIZE);
         script = env.successor_script;
         env.successor_script.clear();
         pc = env.pbegincodehash = script.begin();
